@@ -15,6 +15,12 @@ model over an oracle-annotated abstract DOM (the oracle holds only lxml / csssel
 generated HTML the model's list of calls into the placement core and its final document are compared with the real parse
 (theorems parse_total, parse_valid, parse_no_internal, context_rules_apply_exactly in Props/C19.lean); `schema_rules` ordering is
 tied too (schema_rules_order), and the decidable guards of parse_no_internal are evaluated on every input of the tie.
+Export→import tie (PM/RoundTrip.lean): for every generated document of the bundled schemas the model serialises it (applying the
+evaluated `toDOM` outputs), fills the walk's oracle in by itself from the emitted DOM and the parse rules in restricted form
+(`tag[attr]` selectors, attribute-copying `get_attrs`), and parses; compared exactly with the real run: the HTML, the oracle-annotated
+abstract DOM (snapshot of the real parse of the real HTML), the parsed document.  Relation: the decidable hypothesis `rtOk` of the
+round-trip theorem (faithful rules + whitespace-normal text) implies that the real round trip is the identity; cases are counted per
+node kind (`roundtrip_kind:*`).  Theorems: roundtrip_{text,insert,enter,open,close,finish}_partial (steps of the induction).
 Search (named as such): termination (per-call alarm) and no-crash of lxml / cssselect / `re` on generated HTML; validity of the parsed
 document (check() + independent validator); context-restricted rules apply exactly where the open
 ancestors match; serialise → parse round trip on whitespace-normal documents of the bundled schemas.
